@@ -42,9 +42,19 @@ pub fn run(case: &Case) -> CaseReport {
     if reorder {
         rep.class("interactive-reorder");
     }
+    // F49: in hooks mode an interactive rebase that drops a commit leaves later commits
+    // without a note (and loses lines the wrapper keeps); F35-like state is also left behind
+    // by `cherry-pick --quit`
+    let drop_or_long_fold = w.outcomes.iter().any(|o| !o.aborted && o.kind == "rebase-i-drop" && o.rewritten >= 1);
+    if drop_or_long_fold {
+        rep.class("interactive-drop");
+    }
+    let quit = rep.classes.iter().any(|c| c.starts_with("quit:"));
     let taint = w
         .taint
         .or(h.taint)
+        .or(if quit { Some("hooks-mode-loses-notes-after-aborted-operation") } else { None })
+        .or(if drop_or_long_fold { Some("hooks-mode-interactive-drop-diverges") } else { None })
         .or(if reorder { Some("hooks-mode-interactive-reorder-loses-attribution") } else { None })
         .or(if aborted { Some("hooks-mode-loses-notes-after-aborted-operation") } else { None })
         .or(if multi_conflict { Some("hooks-mode-multi-commit-rewrite-with-conflict-loses-attribution") } else { None });
